@@ -66,10 +66,17 @@ def _worker(args):
     strat = 'random' if it % 4 == 0 else 'eagle'
     if strat == 'random' and pad and not cats:
       cats = [3]
+    if it % 4 == 1:
+      # categorical features of different sizes, a flat score and many steps: an invalid category index is not
+      # punished by the score and has time to appear through mutation
+      cats = r.choice([[2, 5], [2, 3, 5], [5, 2], [3, 2, 5]])
+      ncont = r.choice([0, 1])
     batch, count, maxev = r.choice([3, 5, 10]), r.choice([1, 2, 4, 7, 12]), r.choice([30, 60, 100])
     if r.random() < 0.1:
       count, maxev = 12, 5            # more candidates requested than evaluations made
     kind = ['nonfinite', 'interior', 'needle', 'corner', 'plateau', 'categorical'][(it + it // 6) % 6]
+    if it % 4 == 1:
+      kind = 'plateau'
     tag = dict(strategy=strat, n_continuous=ncont, categorical_sizes=cats, feature_padding=pad, batch=batch, count=count,
                max_evaluations=maxev, score=kind, seed=it)
     prob, conv = make(ncont, cats, pad)
@@ -179,6 +186,36 @@ def _worker(args):
     if not (np.array_equal(np.asarray(res2.features.continuous), cont) and np.array_equal(np.asarray(res2.features.categorical), cat)
             and np.array_equal(np.asarray(res2.rewards), rew, equal_nan=True)):
       viol('the same seed and score function gave different candidates', out)
+    if it % 4 == 1 and strat == 'eagle' and cats:
+      # a long compiled run (mutation phase, thousands of evaluations) with a score that rewards large category indices:
+      # validity of what comes back, re-scoring and decoding to parameters
+      def raw_big(cont_, cat_):
+        s_ = -jnp.sum((cont_ - 0.5) ** 2, axis=-1) + 0.25 * cat_[..., 0].astype(cont_.dtype)
+        if len(cats) > 1:
+          s_ = s_ + 0.05 * cat_[..., 1].astype(cont_.dtype)
+        return s_
+      opt_l = vb.VectorizedOptimizerFactory(strategy_factory=eagle_strategy.VectorizedEagleStrategyFactory(), max_evaluations=3000,
+                                            suggestion_batch_size=10, use_fori=True)(conv)
+      resl = opt_l(lambda x, s_: raw_big(x.continuous.padded_array, x.categorical.padded_array), count=5, seed=jax.random.PRNGKey(it))
+      contl, catl, rewl = np.asarray(resl.features.continuous), np.asarray(resl.features.categorical), np.asarray(resl.rewards)
+      outl = dict(tag, long_run=True, max_evaluations=3000, rewards=rewl.tolist(), continuous=contl.tolist(), categorical=catl.tolist())
+      rep.case(dict(tag, long_run=True), True)
+      if np.any(catl[..., :len(cats)] < 0) or np.any(catl[..., :len(cats)] >= np.array(cats)):
+        viol('a categorical feature of a returned candidate is not a valid category index', outl)
+      if ncont and (np.any(contl[..., :ncont] < 0) or np.any(contl[..., :ncont] > 1)):
+        viol('a continuous feature of a returned candidate is outside the unit cube', outl)
+      if np.any(contl[..., ncont:] != 0) or np.any(catl[..., len(cats):] != 0):
+        viol('a padding column of a returned candidate is not zero', outl)
+      rsl = np.asarray(raw_big(jnp.asarray(contl[:, 0]), jnp.asarray(catl[:, 0])))
+      if not np.allclose(rsl, rewl, atol=1e-5):
+        viol('the reported score of a returned candidate is not the score the function gives at that candidate', dict(outl, rescored=rsl.tolist()))
+      try:
+        for t in vb.best_candidates_to_trials(resl, conv):
+          for j, kk in enumerate(cats):
+            if t.parameters.get_value('c%d' % j) not in [chr(97 + q) for q in range(kk)]:
+              viol('a returned candidate decodes to a parameter value outside the search space', dict(outl, parameter='c%d' % j, value=repr(t.parameters.get_value('c%d' % j))))
+      except Exception as e:  # pylint: disable=broad-except
+        viol('decoding the returned candidates raised %s' % type(e).__name__, dict(outl, error=str(e)[:200]))
     if it % 5 == 0 and strat == 'eagle':
       # the compiled loop must agree with the observed python loop
       evals_backup = list(evals)
